@@ -597,3 +597,88 @@ package commonmark
 //@   loop 1: invariant[alphabet] URIAlphabet(sb.buf, len(sb.buf))
 //@   loop 1: invariant[escapes] URIEscapes(sb.buf, len(sb.buf), 0)
 //@   serves C15, C04, C07
+
+// ---------------------------------------------------------------------------
+// E-mail addresses (section 6.5):
+//   [a-zA-Z0-9.!#$%&'*+/=?^_`{|}~-]+@[a-zA-Z0-9](?:[a-zA-Z0-9-]{0,61}[a-zA-Z0-9])?
+//   (?:\.[a-zA-Z0-9](?:[a-zA-Z0-9-]{0,61}[a-zA-Z0-9])?)*
+// Label characters exclude '.', and local-part characters exclude '@', so the
+// decomposition of a string is unique and can be written with "maximal run"
+// functions.
+// ---------------------------------------------------------------------------
+
+//@ spec IsLocalChar(c int) bool = IsAlnum(c) || c == '.' || c == '!' || c == '#' || c == '$' || c == '%' || c == '&' || c == '\'' || c == '*'
+//@    || c == '+' || c == '/' || c == '=' || c == '?' || c == '^' || c == '_' || c == '`' || c == '{' || c == '|' || c == '}' || c == '~' || c == '-'
+//@ spec IsLabelChar(c int) bool = IsAlnum(c) || c == '-'
+//@ spec LocalEnd(s []byte, a int, b int) int = a >= b ? b : (IsLocalChar(s[a]) ? LocalEnd(s, a+1, b) : a)
+//@ spec LabelEnd(s []byte, a int, b int) int = a >= b ? b : (IsLabelChar(s[a]) ? LabelEnd(s, a+1, b) : a)
+//@ -- s[a:e) is a label: 1-63 characters, alphanumeric at both ends
+//@ spec LabelOK(s []byte, a int, e int) bool = e > a && e - a <= 63 && IsAlnum(s[a]) && s[e-1] != '-'
+//@ spec DomainRest(s []byte, e int, b int) bool = e == b || (e < b && s[e] == '.' && DomainOK(s, e+1, b))
+//@ spec DomainOK(s []byte, a int, b int) bool = a < b && LabelOK(s, a, LabelEnd(s, a, b)) && DomainRest(s, LabelEnd(s, a, b), b)
+//@ spec Email(s []byte) bool = LocalEnd(s, 0, len(s)) >= 1 && LocalEnd(s, 0, len(s)) < len(s) && s[LocalEnd(s, 0, len(s))] == '@'
+//@    && DomainOK(s, LocalEnd(s, 0, len(s)) + 1, len(s))
+
+//@ lemma LocalEnd_is(s []byte, a int, b int, e int)
+//@   requires a <= e && e <= b
+//@   requires forall k in [a, e): IsLocalChar(s[k])
+//@   requires e == b || !IsLocalChar(s[e])
+//@   ensures LocalEnd(s, a, b) == e
+//@   decreases e - a
+//@   ih LocalEnd_is(s, a+1, b, e)
+
+//@ lemma LabelEnd_bounds(s []byte, a int, b int)
+//@   requires a <= b
+//@   ensures a <= LabelEnd(s, a, b) && LabelEnd(s, a, b) <= b
+//@   decreases b - a
+//@   ih LabelEnd_bounds(s, a+1, b)
+//@   trigger LabelEnd(s, a, b)
+
+//@ lemma LabelEnd_is(s []byte, a int, b int, e int)
+//@   requires a <= e && e <= b
+//@   requires forall k in [a, e): IsLabelChar(s[k])
+//@   requires e == b || !IsLabelChar(s[e])
+//@   ensures LabelEnd(s, a, b) == e
+//@   decreases e - a
+//@   ih LabelEnd_is(s, a+1, b, e)
+
+//@ lemma LabelEnd_ge(s []byte, a int, b int, e int)
+//@   requires a <= e && e <= b
+//@   requires forall k in [a, e): IsLabelChar(s[k])
+//@   ensures LabelEnd(s, a, b) >= e
+//@   decreases e - a
+//@   ih LabelEnd_ge(s, a+1, b, e)
+
+//@ -- a sub-slice sees the same runs, shifted
+//@ lemma LabelEnd_shift(s []byte, d int, a int, b int)
+//@   requires 0 <= d && 0 <= a && a <= b
+//@   ensures LabelEnd(s[d:], a, b) + d == LabelEnd(s, a + d, b + d)
+//@   decreases b - a
+//@   ih LabelEnd_shift(s, d, a+1, b)
+
+//@ func parseDomainLabel
+//@   ensures[ok] end >= 0 ==> (end == LabelEnd(text, 0, len(text)) && LabelOK(text, 0, end))
+//@   ensures[bad] end < 0 ==> (end == -1 && !LabelOK(text, 0, LabelEnd(text, 0, len(text))))
+//@   ensures[range] end <= len(text) && end <= 63
+//@   loop 0: invariant[run] 1 <= end && end <= 63 && end <= len(text) && IsAlnum(text[0]) && (forall k in [0, end): IsLabelChar(text[k]))
+//@   loop 0: decreases len(text) - end
+//@   loop 0: use LabelEnd_is(text, 0, len(text), end)
+//@   loop 0: use LabelEnd_ge(text, 0, len(text), end + 1)
+//@   serves C15, C04
+
+//@ func parseEmail
+//@   ensures[full] (end == len(text)) <==> Email(text)
+//@   ensures[range] end == -1 || (3 <= end && end <= len(text))
+//@   loop 0: invariant[local] 0 <= end && end <= len(text) && (forall k in [0, end): IsLocalChar(text[k]))
+//@   loop 0: decreases len(text) - end
+//@   loop 0: use LocalEnd_is(text, 0, len(text), end)
+//@   loop 0: use LabelEnd_shift(text, end + 1, 0, len(text) - end - 1)
+//@   loop 1: invariant[dom] 3 <= end && end <= len(text)
+//@   loop 1: invariant[email] Email(text) <==> DomainRest(text, end, len(text))
+//@   loop 1: decreases len(text) - end
+//@   loop 1: use LabelEnd_shift(text, end + 1, 0, len(text) - end - 1)
+//@   serves C15, C04
+
+//@ func IsEmailAddress
+//@   ensures[regex] result <==> Email(s)
+//@   serves C15, C04
